@@ -55,7 +55,7 @@ add("C05", "exploration", SIM + "bounded liveness without a wall clock: go/ast-i
 add("C09", "fault_enumeration", SIM + "targeted truncation/tamper faults placed by the stub's field map: cut strictly inside every leaf field, 5-byte varints, boolean values 2..255, all 229 undefined identifiers at every property position",
     "Clauses (b),(c),(d) are enumerated completely per generated frame; (a) every interior position of every field of every generated frame.",
     "Soundness of (a): prefix parsing of MQTT is deterministic, a frame ending strictly inside a leaf field has no alternative valid reading; boundary cuts are not generated.", "4 C09")
-add("C13", "exploration", "seeded goroutine workloads of read-only operations on shared packets under the Go race detector (interleaving chosen by the Go scheduler, not the simulator - stated) plus deterministic hidden-write detection by deep snapshots",
+add("C13", "exploration", "seeded goroutine workloads of read-only operations on shared packets under the Go race detector (interleaving chosen by the Go scheduler, not the simulator - stated) plus deterministic hidden-write detection by deep snapshots; the workload is run in two environments: all CPUs, then a worker pinned to one CPU (taskset; runtime.NumCPU()==1)",
     "Race detector verdicts do not depend on the interleaving because the code under test has no synchronisation; hidden-write detection is fully deterministic.",
     "Race detector is sound within its history window.", "4 C13")
 add("C15", "exploration", SIM + "varint codec through verif-tagged wrappers: streaming decoder under link schedules and cuts, in-memory decoder on the same bytes, agreement; quick: all sequences of length <= 2 enumerated, values and longer sequences sampled; thorough additionally walks through all 2^28 values and all 2^24 three-byte sequences",
